@@ -21,7 +21,7 @@
 (* choice.  CONFLUENCE: every terminal state of every case projects to     *)
 (* PResult(case), a function of the case alone.                            *)
 (*                                                                         *)
-(* Deviation flags (Dev.*), each must make TLC refute Confluent:           *)
+(* Deviation flags (fields of Dev), each must make TLC refute Confluent:   *)
 (*   sliceAny      fragment nodes sliced in set-iteration order (F15, repaired)            *)
 (*   key0          terminal modification looked up by node key 0 / resid-1 (F9, repaired)  *)
 (*   addAny        blocks added in node order instead of residue-id order                  *)
@@ -46,6 +46,10 @@ IsSpanTree(c, T) == Cardinality(T) = c.n - 1 /\ ReachIn(T, {1}) = Pos(c)
 Anc(T, r, x, y) == x = r \/ x = y \/ y \notin ReachIn({e \in T : x \notin e}, {r})
 DfsTrees(c) == {T \in SUBSET c.E : IsSpanTree(c, T) /\ \E r \in Pos(c) : \A e \in c.E \ T : \E x, y \in e : x # y /\ Anc(T, r, x, y)}
 
+\* tabulated once (constant level): the presentations of every force field, the declared result of every case
+PresTab == [i \in DOMAIN FFs |-> Presentations(FFs[i])]
+PResTab == [c \in Cases |-> PResult(c)]
+
 S0 == [pc |-> "load", L |-> L0, bx |-> <<>>, frags |-> <<>>, fid |-> <<>>, molN |-> 0, ord |-> <<>>, k |-> 1,
        M |-> [atoms |-> <<>>, gattr |-> <<>>, ints |-> {}, edges |-> {}, extra |-> <<>>, rm |-> {}],
        corr |-> <<>>, added |-> {}, li |-> 1, todo |-> {}, orient |-> <<>>, err |-> "", fired |-> {}, out |-> ErrOut("")]
@@ -55,7 +59,7 @@ Fail(e) == s' = [s EXCEPT !.pc = "done", !.err = e, !.out = ErrOut(e)]
 
 (* ---- load_ff_library *)
 Load == /\ s.pc = "load"
-        /\ \E fs \in Presentations(FFof(case)) :
+        /\ \E fs \in PresTab[case.ff] :
              LET L == Loaded(FFof(case), fs, Dev.itpGlobal)
                  Li == Loaded(FFof(case), fs, FALSE)
              IN s' = [s EXCEPT !.pc = "match", !.L = L, !.bx = FreshBx(FFof(case), L),
@@ -141,25 +145,25 @@ BeginLink == /\ s.pc = "begin"
              /\ IF s.li > Len(s.L.l)
                 THEN s' = [s EXCEPT !.pc = "write"]
                 ELSE \E o \in (IF Dev.orientLink THEN {f \in [case.E -> Pos(case)] : \A e \in case.E : f[e] \in e} ELSE {<<>>}) :
-                       s' = [s EXCEPT !.pc = "match",
+                       s' = [s EXCEPT !.pc = "try",
                                       !.orient = IF s.li = 1 THEN o ELSE @,
                                       !.todo = IF Prefilter(s.M, CurLink) THEN ResMatches(case, CurLink) ELSE {}]
              /\ UNCHANGED case
 DictPut(D, new) == {x \in D : \A y \in new : Key(y) # Key(x)} \cup new
 TryMatch(phi) ==
-  /\ s.pc = "match" /\ phi \in s.todo
+  /\ s.pc = "try" /\ phi \in s.todo
   /\ LET l == CurLink
          iv == ImgVec(case, s.M, l, phi)
          ok == OrientOK(l, phi) /\ \A a \in DOMAIN l.atoms : iv[a] # 0
      IN s' = IF ~ok THEN [s EXCEPT !.todo = @ \ {phi}]
              ELSE [s EXCEPT !.todo = IF Dev.firstMatchOnly THEN {} ELSE @ \ {phi},
                             !.M.rm = @ \cup DelImg(l, iv),
-                            !.M.atoms = [g \in DOMAIN @ |-> IF \E r \in RepImg(l, s.li, iv) : r.g = g
-                                                            THEN [@[g] EXCEPT !.ty = (CHOOSE r \in RepImg(l, s.li, iv) : r.g = g).ty] ELSE @[g]],
+                            !.M.atoms = [g \in DOMAIN s.M.atoms |-> IF \E r \in RepImg(l, s.li, iv) : r.g = g
+                                                            THEN [s.M.atoms[g] EXCEPT !.ty = (CHOOSE r \in RepImg(l, s.li, iv) : r.g = g).ty] ELSE s.M.atoms[g]],
                             !.M.edges = @ \cup EdgeImg(l, iv),
                             !.M.ints = DictPut(@, IntImg(l, s.L.ver[s.L.l[s.li]], s.li, iv))]
   /\ UNCHANGED case
-EndLink == /\ s.pc = "match" /\ s.todo = {}
+EndLink == /\ s.pc = "try" /\ s.todo = {}
            /\ s' = [s EXCEPT !.pc = "begin", !.li = @ + 1]
            /\ UNCHANGED case
 WriteBack == /\ s.pc = "write"
@@ -195,18 +199,20 @@ Finish == /\ s.pc = "finish"
           /\ s' = [s EXCEPT !.pc = "done", !.out = IF s.err # "" THEN ErrOut(s.err) ELSE Project(s.M, s.molN, CitesOf(case, s.bx))]
           /\ UNCHANGED case
 
-Next == Load \/ MatchNodes \/ Tag \/ AddBlock \/ BeginLink \/ (\E phi \in s.todo : TryMatch(phi)) \/ EndLink \/ WriteBack \/ ApplyMods \/ Finish
+\* canonMatch (not a deviation): one fixed order of the matches, for runs that only need the results of the other choices
+TryAny == IF Dev.canonMatch THEN s.todo # {} /\ TryMatch(CHOOSE phi \in s.todo : TRUE) ELSE \E phi \in s.todo : TryMatch(phi)
+Next == Load \/ MatchNodes \/ Tag \/ AddBlock \/ BeginLink \/ TryAny \/ EndLink \/ WriteBack \/ ApplyMods \/ Finish
 Spec == Init /\ [][Next]_vars
 
 (* ---- I-layer |= P-layer: confluence *)
-Confluent == s.pc = "done" => s.out = PResult(case)
+Confluent == s.pc = "done" => s.out = PResTab[case]
 \* the base molecule before links is the declared concatenation of block copies (where MapToMolecule did not fail)
 BaseAsDeclared == (s.pc = "begin" /\ s.li = 1) =>
                     LET B == PBase(case, s.L, s.bx) IN s.M.atoms = B.atoms /\ s.M.gattr = B.gattr /\ s.M.ints = B.ints /\ s.M.edges = B.edges
 \* the cases stay inside the stated domain
 DomainInv == s.pc = "load" => InDomain(case)
 \* a run only fails where the declared result is that failure
-NoSpuriousFailure == (s.pc = "done" /\ s.err # "") => PResult(case).err = s.err
+NoSpuriousFailure == (s.pc = "done" /\ s.err # "") => PResTab[case].err = s.err
 \* without a known deviation switched on nothing "fires"
 FiredOnlyKnown == s.fired \subseteq {f \in Known : Dev[f]}
 =============================================================================
